@@ -52,6 +52,10 @@ def materialise(spec, base):
         os.makedirs(rdir)
         roots.append(rdir)
         _fill(rdir, root, spec.get('junk'), top=True, tag='tag_r%d' % i)
+        if i in (spec.get('root_init') or ()):
+            # a source root that itself holds an __init__.py (a tests/ directory): modules are still imported relative to the root
+            with open(os.path.join(rdir, '__init__.py'), 'w') as f:
+                f.write('root_marker = 1\n')
     return roots
 
 
@@ -395,6 +399,7 @@ def tree_strategy():
         'roots': st.lists(root, min_size=1, max_size=3),
         'order': st.permutations([0, 1, 2]),
         'junk': st.booleans(),
+        'root_init': st.lists(st.integers(0, 2), max_size=2, unique=True),
     })
 
 
